@@ -36,7 +36,8 @@ ASSUMPTIONS = ['default configuration (enforce_new_defaults on); no scope '
 ROLES = ('a', 'b', 'c', 'd', 'z')
 SUBSETS = [[r for i, r in enumerate(ROLES) if m >> i & 1] for m in range(32)]
 SUBSETS += [['d-\u00e9-\U0001f680'], ['a', 'd-\u00e9-\U0001f680'],
-            ['svc:new'], ['svc:n1', 'b']]
+            ['svc:new'], ['svc:n1', 'b'],
+            ['d-3-cloud-operator-of-region-3']]
 TARGETS = ({'k': 'x'}, {'k': 'y'})
 ADMIN = (False, True)     # is_admin paired with the target of same index
 BOUNDS = {'quick': dict(entries=2), 'thorough': dict(entries=3)}
@@ -84,11 +85,12 @@ KINDS = ('plain', 'renamed', 'split', 'changed', 'mix')
 VALUE_KINDS = ('default', 'variant', 'different', 'dquote', 'allow', 'deny',
                'empty', 'list1', 'list2', 'list0', 'alias', 'casevariant',
                'aliasprefix', 'aliaslist', 'aliasspaced', 'astral',
-               'aliaslast', 'olddefault', 'listblank', 'rolenamed')
+               'aliaslast', 'olddefault', 'listblank', 'rolenamed',
+               'longhyphen')
 QUICK_VARIANT_KINDS = ('default', 'different', 'empty', 'list1', 'alias',
                        'aliaslist', 'aliaslast', 'listblank', 'rolenamed')
 TEXT_KINDS = ('default', 'variant', 'different', 'allow', 'deny', 'empty',
-              'casevariant', 'astral', 'olddefault')
+              'casevariant', 'astral', 'olddefault', 'longhyphen')
 
 
 def value(vk, name, defaults, successors):
@@ -129,6 +131,10 @@ def value(vk, name, defaults, successors):
         # a role name with characters outside the ASCII range and outside
         # the Basic Multilingual Plane
         return 'role:d-\u00e9-\U0001f680'
+    if vk == 'longhyphen':
+        # far wider than any line-folding width, hyphens inside every word
+        return ' or '.join('role:d-%d-cloud-operator-of-region-%d' % (i, i)
+                           for i in range(6))
     if vk == 'rolenamed':
         # not an alias: a ROLE that is called like the successor policy
         return 'role:%s' % successors[name][0] \
